@@ -2,6 +2,7 @@ package main
 
 import (
 	"fmt"
+	"math"
 	"strings"
 )
 
@@ -92,4 +93,34 @@ func genSweep(g *Gen, n int) {
 	}
 	// a value without a header aborts the pass with an error
 	g.Emit("bad-header", "clock.reset", "env.new a 1 0 0 0 -", "env.app a c:74:0,p:74:61:76", "sweep.pass a 5 1000 -", "env.dump a")
+}
+
+// genSweepWall: the sweeper's wall-clock cut-off (now - retention): markers and live entries of
+// ages around the retention period, in particular inside the band between the loader's shortened
+// retention (99 % by default) and the full one.
+func genSweepWall(g *Gen, n int) {
+	count := 6
+	if g.Thorough() {
+		count = 40
+	}
+	days := []float32{2, 1, 0.5, 7, 0.02, 30, 370}
+	for s := 0; s < count; s++ {
+		d := days[s%len(days)]
+		rdMin := float64(d) * 1440
+		var toks []string
+		for _, f := range []float64{0, 0.3, 0.9, 0.985, 0.992, 0.997, 1.004, 1.02, 1.5, 3} {
+			m := uint64(rdMin * f)
+			if f > 0.99 && f < 1 && rdMin-float64(m) < 2 {
+				continue // too close to the boundary for a wall clock
+			}
+			if f > 1 && float64(m)-rdMin < 2 {
+				continue
+			}
+			toks = append(toks, fmt.Sprintf("%dD", m))
+			if g.R.Intn(2) == 0 {
+				toks = append(toks, fmt.Sprintf("%dL", m))
+			}
+		}
+		g.Emit("wall-clock", fmt.Sprintf("sweep.wall %s %d %s", b2s(s%2 == 0), math.Float32bits(d), strings.Join(toks, ",")))
+	}
 }
